@@ -20,6 +20,9 @@
  *   cal  <id> <ncal> <holemask> <seed> <func> <a1> <a2> <a3> <a4> <str>
  *   new  <id> <type> <rows> <cols> <freqs> <nstd> <seed> <func> <a1> ... <a8> <str>
  *   prop <id> <variant> <func> <str>
+ *   ptie <id> <set|subtree> <str>          (model tie of vnaproperty_vset / _vset_subtree, see run_ptie)
+ * <func>@null gives the function under test a NULL object pointer (data, cal: query / parameter
+ * functions, new).
  */
 #include "archdep.h"
 #include <complex.h>
@@ -39,6 +42,7 @@
 #include "vnacal_internal.h"
 #include "vnacal_new_internal.h"
 #include "vnadata_internal.h"
+#include "vnaproperty_internal.h"
 
 typedef double complex cx;
 
@@ -627,12 +631,22 @@ static void run_cal(void)
     long a1 = A(6), a2 = A(7), a3 = A(8), a4 = A(9);
     char *str = unhex(ntok > 10 ? tok[10] : "-");
     vnacal_t *vcp = cal_build(ncal, holemask, seed);
+    vnacal_t *q;			/* the handle given to the query / parameter functions: vcp, or NULL for <func>@null */
+    char fname[64];
     vnacal_t *vcp_other = NULL, *loaded = NULL;
     vnacal_new_t *vnp = NULL;
     vnadata_t *sp = NULL;
     uint64_t d0, d1;
     int err, sfx, sfxcb, added_ci = -2, honour = 1;
     (void)a3; (void)a4;
+
+    snprintf(fname, sizeof(fname), "%s", fn);
+    q = vcp;
+    if (strlen(fname) > 5 && strcmp(fname + strlen(fname) - 5, "@null") == 0) {
+	fname[strlen(fname) - 5] = 0;
+	q = NULL;
+    }
+    fn = fname;
 
     /* objects some calls need, built before the first digest */
     R.enabled = 0;
@@ -661,25 +675,25 @@ static void run_cal(void)
     rec_reset();
     errno = 0;
     strcpy(retbuf, "?");
-    if (!strcmp(fn, "find")) { added_ci = vnacal_find_calibration(vcp, str); ret_int(added_ci < 0 ? -1 : 0); }
-    else if (!strcmp(fn, "delete_calibration")) ret_int(vnacal_delete_calibration(vcp, (int)a1));
-    else if (!strcmp(fn, "get_name")) ret_ptr(vnacal_get_name(vcp, (int)a1));
-    else if (!strcmp(fn, "get_type")) ret_int((int)vnacal_get_type(vcp, (int)a1) == -1 ? -1 : 0);
-    else if (!strcmp(fn, "get_rows")) ret_int(vnacal_get_rows(vcp, (int)a1) == -1 ? -1 : 0);
-    else if (!strcmp(fn, "get_columns")) ret_int(vnacal_get_columns(vcp, (int)a1) == -1 ? -1 : 0);
-    else if (!strcmp(fn, "get_frequencies")) ret_int(vnacal_get_frequencies(vcp, (int)a1) == -1 ? -1 : 0);
-    else if (!strcmp(fn, "get_fmin")) ret_dbl(vnacal_get_fmin(vcp, (int)a1));
-    else if (!strcmp(fn, "get_fmax")) ret_dbl(vnacal_get_fmax(vcp, (int)a1));
-    else if (!strcmp(fn, "get_frequency_vector")) ret_ptr(vnacal_get_frequency_vector(vcp, (int)a1));
-    else if (!strcmp(fn, "get_z0")) ret_cx(vnacal_get_z0(vcp, (int)a1));
+    if (!strcmp(fn, "find")) { added_ci = vnacal_find_calibration(q, str); ret_int(added_ci < 0 ? -1 : 0); }
+    else if (!strcmp(fn, "delete_calibration")) ret_int(vnacal_delete_calibration(q, (int)a1));
+    else if (!strcmp(fn, "get_name")) ret_ptr(vnacal_get_name(q, (int)a1));
+    else if (!strcmp(fn, "get_type")) ret_int((int)vnacal_get_type(q, (int)a1) == -1 ? -1 : 0);
+    else if (!strcmp(fn, "get_rows")) ret_int(vnacal_get_rows(q, (int)a1) == -1 ? -1 : 0);
+    else if (!strcmp(fn, "get_columns")) ret_int(vnacal_get_columns(q, (int)a1) == -1 ? -1 : 0);
+    else if (!strcmp(fn, "get_frequencies")) ret_int(vnacal_get_frequencies(q, (int)a1) == -1 ? -1 : 0);
+    else if (!strcmp(fn, "get_fmin")) ret_dbl(vnacal_get_fmin(q, (int)a1));
+    else if (!strcmp(fn, "get_fmax")) ret_dbl(vnacal_get_fmax(q, (int)a1));
+    else if (!strcmp(fn, "get_frequency_vector")) ret_ptr(vnacal_get_frequency_vector(q, (int)a1));
+    else if (!strcmp(fn, "get_z0")) ret_cx(vnacal_get_z0(q, (int)a1));
     else if (!strcmp(fn, "add_calibration")) {
 	/* a1: 0 solved, 1 unsolved, 2 NULL vnp, 3 vnp of another vnacal_t, 4 solved + existing name */
 	added_ci = vnacal_add_calibration(vcp, str, a1 == 2 ? NULL : vnp);
 	ret_int(added_ci < 0 ? -1 : 0);
 	if (added_ci >= 0) {
-	    const char *nm = vnacal_get_name(vcp, added_ci);
-	    honour = (vnacal_find_calibration(vcp, str) == added_ci) && nm != NULL && strcmp(nm, str) == 0
-		&& vnacal_get_rows(vcp, added_ci) == 1 && added_ci < vnacal_get_calibration_end(vcp);
+	    const char *nm = vnacal_get_name(q, added_ci);
+	    honour = (vnacal_find_calibration(q, str) == added_ci) && nm != NULL && strcmp(nm, str) == 0
+		&& vnacal_get_rows(q, added_ci) == 1 && added_ci < vnacal_get_calibration_end(vcp);
 	}
     } else if (!strcmp(fn, "set_fprecision")) ret_int(vnacal_set_fprecision(vcp, (int)a1));
     else if (!strcmp(fn, "set_dprecision")) ret_int(vnacal_set_dprecision(vcp, (int)a1));
@@ -694,8 +708,9 @@ static void run_cal(void)
 	if (a1 == 4) fv[0] = -1.0;
 	if (a1 == 5) { fv[1] = 3e9; fv[2] = 2e9; }
 	if (a1 == 6) fv[2] = fv[1];
-	ret_int(vnacal_make_vector_parameter(vcp, a1 == 2 ? NULL : fv, n, a1 == 3 ? NULL : gv) < 0 ? -1 : 0);
-    } else if (!strcmp(fn, "make_unknown")) ret_int(vnacal_make_unknown_parameter(vcp, (int)a1) < 0 ? -1 : 0);
+	ret_int(vnacal_make_vector_parameter(q, a1 == 2 ? NULL : fv, n, a1 == 3 ? NULL : gv) < 0 ? -1 : 0);
+    } else if (!strcmp(fn, "make_scalar")) ret_int(vnacal_make_scalar_parameter(q, 0.25 + 0.5 * I) < 0 ? -1 : 0);
+    else if (!strcmp(fn, "make_unknown")) ret_int(vnacal_make_unknown_parameter(q, (int)a1) < 0 ? -1 : 0);
     else if (!strcmp(fn, "make_correlated")) {
 	/* a1 = other handle; a2: 0 valid sigma, 1 sigma_frequencies = 0, 2 NULL sigma vector,
 	 *                       3 descending sigma frequencies, 4 negative sigma frequency */
@@ -705,18 +720,18 @@ static void run_cal(void)
 	if (a2 == 1) n = 0;
 	if (a2 == 3) { sf[1] = 3e9; sf[2] = 2e9; }
 	if (a2 == 4) sf[0] = -1.0;
-	ret_int(vnacal_make_correlated_parameter(vcp, (int)a1, sf, n, a2 == 2 ? NULL : sv) < 0 ? -1 : 0);
-    } else if (!strcmp(fn, "delete_parameter")) ret_int(vnacal_delete_parameter(vcp, (int)a1));
-    else if (!strcmp(fn, "get_parameter_value")) ret_cx(vnacal_get_parameter_value(vcp, (int)a1, (double)a2 * 1e8));
-    else if (!strcmp(fn, "property_type")) ret_int(vnacal_property_type(vcp, (int)a1, "%s", str) == -1 ? -1 : 0);
-    else if (!strcmp(fn, "property_count")) ret_int(vnacal_property_count(vcp, (int)a1, "%s", str) == -1 ? -1 : 0);
+	ret_int(vnacal_make_correlated_parameter(q, (int)a1, sf, n, a2 == 2 ? NULL : sv) < 0 ? -1 : 0);
+    } else if (!strcmp(fn, "delete_parameter")) ret_int(vnacal_delete_parameter(q, (int)a1));
+    else if (!strcmp(fn, "get_parameter_value")) ret_cx(vnacal_get_parameter_value(q, (int)a1, (double)a2 * 1e8));
+    else if (!strcmp(fn, "property_type")) ret_int(vnacal_property_type(q, (int)a1, "%s", str) == -1 ? -1 : 0);
+    else if (!strcmp(fn, "property_count")) ret_int(vnacal_property_count(q, (int)a1, "%s", str) == -1 ? -1 : 0);
     else if (!strcmp(fn, "property_keys")) {
-	const char **k = vnacal_property_keys(vcp, (int)a1, "%s", str);
+	const char **k = vnacal_property_keys(q, (int)a1, "%s", str);
 	ret_ptr(k); free((void *)k);
-    } else if (!strcmp(fn, "property_get")) ret_ptr(vnacal_property_get(vcp, (int)a1, "%s", str));
-    else if (!strcmp(fn, "property_set")) ret_int(vnacal_property_set(vcp, (int)a1, "%s", str));
-    else if (!strcmp(fn, "property_delete")) ret_int(vnacal_property_delete(vcp, (int)a1, "%s", str));
-    else if (!strcmp(fn, "property_set_subtree")) ret_ptr(vnacal_property_set_subtree(vcp, (int)a1, "%s", str));
+    } else if (!strcmp(fn, "property_get")) ret_ptr(vnacal_property_get(q, (int)a1, "%s", str));
+    else if (!strcmp(fn, "property_set")) ret_int(vnacal_property_set(q, (int)a1, "%s", str));
+    else if (!strcmp(fn, "property_delete")) ret_int(vnacal_property_delete(q, (int)a1, "%s", str));
+    else if (!strcmp(fn, "property_set_subtree")) ret_ptr(vnacal_property_set_subtree(q, (int)a1, "%s", str));
     else if (!strcmp(fn, "load")) {
 	/* a1: 0 = str is the file text (written to a temporary file), 1 = str is a path */
 	char path[512];
@@ -806,7 +821,12 @@ static void run_new(void)
     int err, sfx = 0, sfxcb;
     cx gv[NF] = { 0.1, 0.2 + 0.1 * I, 0.3 };
     cx one[1] = { 0.5 };
+    vnacal_new_t *subj;		/* the handle given to the function under test: vnp, or NULL for <func>@null */
+    char fname[64];
     (void)one;
+    snprintf(fname, sizeof(fname), "%s", fn);
+    if (strlen(fname) > 5 && strcmp(fname + strlen(fname) - 5, "@null") == 0)
+	fname[strlen(fname) - 5] = 0;
     for (int i = 1; i <= 8; ++i) a[i] = A(8 + i);
     R.enabled = 0;
     rseed((uint64_t)seed + 7);
@@ -816,12 +836,14 @@ static void run_new(void)
     h_unknown = vnacal_make_unknown_parameter(vcp, h_scalar);
     h_deleted = vnacal_make_scalar_parameter(vcp, 0.7);
     vnacal_delete_parameter(vcp, h_deleted);
-    if (!strcmp(fn, "set_frequency_vector") || !strcmp(fn, "set_fv3") || (!strcmp(fn, "solve") && a[1] == 1)) {
+    if (!strcmp(fname, "set_frequency_vector") || !strcmp(fname, "set_fv3") || (!strcmp(fname, "solve") && a[1] == 1)) {
 	vnp = vnacal_new_alloc(vcp, type, rows, cols, NF);	/* frequency vector not yet given */
     } else {
 	vnp = new_build(vcp, type, rows, cols, nstd, h_scalar);
     }
     if (vnp == NULL) { printf("STATE-ERROR new type %d %dx%d nstd %d errno %s\n", type, rows, cols, nstd, eclass(errno)); exit(3); }
+    subj = strcmp(fname, fn) != 0 ? NULL : vnp;
+    fn = fname;
     if (!strcmp(fn, "solve") && a[1] == 2) {
 	/* a calibration solved earlier must survive a later failed solve: solve now with all
 	 * standards, then make the system unsolvable by ... nothing public can remove standards,
@@ -848,12 +870,12 @@ static void run_new(void)
 	if (a[1] == 3) { fv[1] = 3e9; fv[2] = 2e9; }
 	if (a[1] == 4) fv[1] = fv[0];
 	if (a[1] == 5) fv[2] = NAN;
-	ret_int(vnacal_new_set_frequency_vector(vnp, a[1] == 1 ? NULL : fv));
+	ret_int(vnacal_new_set_frequency_vector(subj, a[1] == 1 ? NULL : fv));
     } else if (!strcmp(fn, "set_fv3")) {
 	/* a1..a3 = the three frequencies in GHz (-999 = NaN), a4 = 1: NULL vector */
 	double fv[NF];
 	for (int i = 0; i < NF; ++i) fv[i] = a[1 + i] == -999 ? NAN : (double)a[1 + i] * 1e9;
-	ret_int(vnacal_new_set_frequency_vector(vnp, a[4] == 1 ? NULL : fv));
+	ret_int(vnacal_new_set_frequency_vector(subj, a[4] == 1 ? NULL : fv));
     } else if (!strcmp(fn, "add_generic")) {
 	/* str: b_null a_rows a_cols b_rows b_cols s_rows s_cols nmap p1 p2 p3 p4 ncells h1 .. h16 asing
 	 * (a_rows = a_cols = 0: no 'a' matrix; nmap = -1: NULL port map) */
@@ -878,16 +900,16 @@ static void run_new(void)
 	    if (v[29] == 1) av[1] = 0.0;
 	}
 	if (v[1] == 0 && v[2] == 0)
-	    ret_int(vnacal_new_add_mapped_matrix_m(vnp, v[0] ? NULL : mrow, (int)v[3], (int)v[4], smat, (int)v[5], (int)v[6],
+	    ret_int(vnacal_new_add_mapped_matrix_m(subj, v[0] ? NULL : mrow, (int)v[3], (int)v[4], smat, (int)v[5], (int)v[6],
 			v[7] == -1 ? NULL : map));
 	else
-	    ret_int(vnacal_new_add_mapped_matrix(vnp, ap, (int)v[1], (int)v[2], v[0] ? NULL : mrow, (int)v[3], (int)v[4],
+	    ret_int(vnacal_new_add_mapped_matrix(subj, ap, (int)v[1], (int)v[2], v[0] ? NULL : mrow, (int)v[3], (int)v[4],
 			smat, (int)v[5], (int)v[6], v[7] == -1 ? NULL : map));
 	free(str2);
-    } else if (!strcmp(fn, "set_z0")) ret_int(vnacal_new_set_z0(vnp, 75.0));
+    } else if (!strcmp(fn, "set_z0")) ret_int(vnacal_new_set_z0(subj, 75.0));
     else if (!strcmp(fn, "add_single_reflect_m")) {
 	/* a1 = s11 handle, a2 = port, a5 = m_rows, a6 = m_columns, a7: 1 = NULL m */
-	ret_int(vnacal_new_add_single_reflect_m(vnp, a[7] == 1 ? NULL : mrow, (int)a[5], (int)a[6], (int)a[1], (int)a[2]));
+	ret_int(vnacal_new_add_single_reflect_m(subj, a[7] == 1 ? NULL : mrow, (int)a[5], (int)a[6], (int)a[1], (int)a[2]));
     } else if (!strcmp(fn, "add_single_reflect")) {
 	/* a1 = s11, a2 = port, a3 = a_rows, a4 = a_columns, a5 = b_rows, a6 = b_columns, a7: 1 = singular a */
 	/* a = identity (or, for UE14 / E12, a row of ones) */
@@ -896,21 +918,21 @@ static void run_new(void)
 	cx *ap[6] = { av, zv, zv, av, zv, zv };
 	if (a[3] == 1) { ap[1] = av; ap[2] = av; }
 	if (a[7] == 1) av[1] = 0.0;
-	ret_int(vnacal_new_add_single_reflect(vnp, ap, (int)a[3], (int)a[4], mrow, (int)a[5], (int)a[6], (int)a[1], (int)a[2]));
+	ret_int(vnacal_new_add_single_reflect(subj, ap, (int)a[3], (int)a[4], mrow, (int)a[5], (int)a[6], (int)a[1], (int)a[2]));
     } else if (!strcmp(fn, "add_double_reflect_m")) {
 	/* a1 = s11, a2 = s22, a3 = port1, a4 = port2, a5 = m_rows, a6 = m_columns */
-	ret_int(vnacal_new_add_double_reflect_m(vnp, mrow, (int)a[5], (int)a[6], (int)a[1], (int)a[2], (int)a[3], (int)a[4]));
+	ret_int(vnacal_new_add_double_reflect_m(subj, mrow, (int)a[5], (int)a[6], (int)a[1], (int)a[2], (int)a[3], (int)a[4]));
     } else if (!strcmp(fn, "add_through_m")) {
-	ret_int(vnacal_new_add_through_m(vnp, mrow, (int)a[5], (int)a[6], (int)a[3], (int)a[4]));
+	ret_int(vnacal_new_add_through_m(subj, mrow, (int)a[5], (int)a[6], (int)a[3], (int)a[4]));
     } else if (!strcmp(fn, "add_line_m")) {
 	/* a1, a2 = s11 and s22 handles (s12 = s21 = a7), a3 = port1, a4 = port2 */
 	int s[4] = { (int)a[1], (int)a[7], (int)a[7], (int)a[2] };
-	ret_int(vnacal_new_add_line_m(vnp, mrow, (int)a[5], (int)a[6], s, (int)a[3], (int)a[4]));
+	ret_int(vnacal_new_add_line_m(subj, mrow, (int)a[5], (int)a[6], s, (int)a[3], (int)a[4]));
     } else if (!strcmp(fn, "add_mapped_matrix_m")) {
 	/* a1, a2 = diagonal handles, a3, a4 = port map, a5, a6 = m dims, a7 = s_rows, a8 = s_columns */
 	int s[4] = { (int)a[1], VNACAL_ZERO, VNACAL_ZERO, (int)a[2] };
 	int map[2] = { (int)a[3], (int)a[4] };
-	ret_int(vnacal_new_add_mapped_matrix_m(vnp, mrow, (int)a[5], (int)a[6], s, (int)a[7], (int)a[8],
+	ret_int(vnacal_new_add_mapped_matrix_m(subj, mrow, (int)a[5], (int)a[6], s, (int)a[7], (int)a[8],
 		    a[3] == 0 ? NULL : map));
     } else if (!strcmp(fn, "set_m_error")) {
 	/* a1: 0 valid (1 point), 1 frequencies = 0, 2 NULL sigma_nf with sigma_tr, 3 negative sigma,
@@ -922,12 +944,12 @@ static void run_new(void)
 	if (a[1] == 3) nf[0] = -1.0;
 	if (a[1] == 4) mf[1] = 2e9;
 	if (a[1] == 5) { mf[0] = 4e9; mf[1] = 0.5e9; }
-	ret_int(vnacal_new_set_m_error(vnp, mf, n, a[1] == 2 ? NULL : nf, tr));
-    } else if (!strcmp(fn, "set_pvalue_limit")) ret_int(vnacal_new_set_pvalue_limit(vnp, a[1] == -999 ? NAN : (double)a[1] / 1000.0));
-    else if (!strcmp(fn, "set_et_tolerance")) ret_int(vnacal_new_set_et_tolerance(vnp, a[1] == -999 ? NAN : (double)a[1] / 1000.0));
-    else if (!strcmp(fn, "set_p_tolerance")) ret_int(vnacal_new_set_p_tolerance(vnp, a[1] == -999 ? NAN : (double)a[1] / 1000.0));
-    else if (!strcmp(fn, "set_iteration_limit")) ret_int(vnacal_new_set_iteration_limit(vnp, (int)a[1]));
-    else if (!strcmp(fn, "solve")) ret_int(vnacal_new_solve(vnp));
+	ret_int(vnacal_new_set_m_error(subj, mf, n, a[1] == 2 ? NULL : nf, tr));
+    } else if (!strcmp(fn, "set_pvalue_limit")) ret_int(vnacal_new_set_pvalue_limit(subj, a[1] == -999 ? NAN : (double)a[1] / 1000.0));
+    else if (!strcmp(fn, "set_et_tolerance")) ret_int(vnacal_new_set_et_tolerance(subj, a[1] == -999 ? NAN : (double)a[1] / 1000.0));
+    else if (!strcmp(fn, "set_p_tolerance")) ret_int(vnacal_new_set_p_tolerance(subj, a[1] == -999 ? NAN : (double)a[1] / 1000.0));
+    else if (!strcmp(fn, "set_iteration_limit")) ret_int(vnacal_new_set_iteration_limit(subj, (int)a[1]));
+    else if (!strcmp(fn, "solve")) ret_int(vnacal_new_solve(subj));
     else {
 	printf("UNKNOWN-FUNC %s\n", fn);
 	exit(4);
@@ -1041,6 +1063,71 @@ static void run_prop(void)
     free(str);
 }
 
+/* =================================================================== property-set model tie */
+static void prop_dump(const vnaproperty_t *node)
+{
+    /* canonical text of a tree of maps, scalars and nulls (white box: vnaproperty_internal.h):
+     * ~ | s<text> | {key:tree,...} in insertion order | [..] for a list */
+    if (node == NULL) { printf("~"); return; }
+    switch (node->vpr_type) {
+    case VNAPROPERTY_SCALAR:
+	printf("s%s", ((const vnaproperty_scalar_t *)node)->vps_value);
+	return;
+    case VNAPROPERTY_MAP:
+	{
+	    const vnaproperty_map_t *m = (const vnaproperty_map_t *)node;
+	    int first = 1;
+	    printf("{");
+	    for (const vnaproperty_map_element_t *e = m->vpm_order_head; e != NULL; e = e->vme_order_next) {
+		if (!first) printf(",");
+		first = 0;
+		printf("%s:", e->vme_pair.vmpr_key);
+		prop_dump(e->vme_pair.vmpr_value);
+	    }
+	    printf("}");
+	}
+	return;
+    case VNAPROPERTY_LIST:
+	{
+	    const vnaproperty_list_t *l = (const vnaproperty_list_t *)node;
+	    printf("[");
+	    for (size_t i = 0; i < l->vpl_length; ++i) { if (i) printf(","); prop_dump(l->vpl_vector[i]); }
+	    printf("]");
+	}
+	return;
+    default:
+	printf("?");
+    }
+}
+
+static void run_ptie(void)
+{
+    /* ptie <id> <set|subtree> <str>: str = descriptors separated by ';', applied in turn to a NULL root with
+     * vnaproperty_set (set) / vnaproperty_set_subtree (subtree); reports the last call and the tree after it */
+    const char *id = tok[1];
+    const char *fn = tok[2];
+    char *str = unhex(ntok > 3 ? tok[3] : "-");
+    vnaproperty_t *root = NULL;
+    int err = 0;
+    rec_reset();
+    strcpy(retbuf, "?");
+    for (char *d = str; d != NULL; ) {
+	char *next = strchr(d, ';');
+	if (next != NULL) *next++ = 0;
+	errno = 0;
+	if (!strcmp(fn, "set")) ret_int(vnaproperty_set(&root, "%s", d));
+	else ret_ptr(vnaproperty_set_subtree(&root, "%s", d));
+	err = errno;
+	d = next;
+    }
+    printf("RES %s ret=%s errno=%s cb=%d warn=%d cats=%s nl=%d ecb=- d0=0 d1=0 tree=", id, retbuf, eclass(err), R.count, R.warn,
+	    R.cats[0] ? R.cats : "-", R.nl);
+    prop_dump(root);
+    printf(" sfx=ok sfxcb=0\n");
+    if (root != NULL) (void)vnaproperty_delete(&root, ".");
+    free(str);
+}
+
 /* =================================================================== errno table */
 static void call_verror(vnaerr_error_fn_t *fn, void *arg, vnaerr_category_t cat, const char *format, ...)
 {
@@ -1115,6 +1202,7 @@ int main(int argc, char **argv)
 	else if (!strcmp(tok[0], "cal")) run_cal();
 	else if (!strcmp(tok[0], "new")) run_new();
 	else if (!strcmp(tok[0], "prop")) run_prop();
+	else if (!strcmp(tok[0], "ptie")) run_ptie();
 	else { printf("UNKNOWN-FAMILY %s\n", tok[0]); return 4; }
     }
     return 0;
